@@ -244,6 +244,32 @@ class Ctx:
         return path
 
 
+
+def gen_parts_of(module):
+    """The translator parts a Lean module depends on: transitive closure of its `import GoNfsd.…` lines down to GoNfsd.Gen.*.
+    Every check regenerates at least these, so that no theorem is ever checked against a table of an earlier run."""
+    import re
+    names = {"Consts": "consts", "Super": "super", "Announce": "announce", "Xdr": "xdr", "Dispatch": "dispatch", "Skeleton": "skeleton"}
+    seen, todo, parts = set(), [module], []
+    while todo:
+        m = todo.pop()
+        if m in seen:
+            continue
+        seen.add(m)
+        if m.startswith("GoNfsd.Gen."):
+            p = names.get(m.split(".")[-1])
+            if p and p not in parts:
+                parts.append(p)
+            continue
+        f = os.path.join(LEAN, *m.split(".")) + ".lean"
+        try:
+            txt = open(f).read()
+        except OSError:
+            continue
+        todo += re.findall(r"^import (GoNfsd\.[A-Za-z0-9_.]+)", txt, re.M)
+    return parts
+
+
 def load_known():
     try:
         return json.load(open(os.path.join(VERIF, "known_findings.json")))["findings"]
